@@ -43,8 +43,11 @@ namespace sqf
                 size_t hash = 0x9e3779b9;
                 for (auto& it : m_map)
                 {
-                    hash ^= std::hash<sqf::runtime::value>()(it.first) + 0x9e3779b9 + (hash << 6) + (hash >> 2);
-                    hash ^= std::hash<sqf::runtime::value>()(it.second) + 0x9e3779b9 + (hash << 6) + (hash >> 2);
+                    // Entries are combined commutatively: the iteration order of the unordered_map
+                    // (which depends on insertion history) is not part of the value.
+                    size_t entry = std::hash<sqf::runtime::value>()(it.first);
+                    entry ^= std::hash<sqf::runtime::value>()(it.second) + 0x9e3779b9 + (entry << 6) + (entry >> 2);
+                    hash += entry;
                 }
                 return hash;
             }
